@@ -260,10 +260,14 @@ func BuildSelect(query *Query, slct *sqlparser.Select) error {
 }
 
 func BuildUnion(query *Query, expr *sqlparser.Union) error {
-	leftStatement := expr.Left.(*sqlparser.Select)
-	leftStatement.With = expr.With
-	rightStatement := expr.Right.(*sqlparser.Select)
-	rightStatement.With = expr.With
+	leftStatement, err := unionBranch(expr.Left, expr.With)
+	if err != nil {
+		return err
+	}
+	rightStatement, err := unionBranch(expr.Right, expr.With)
+	if err != nil {
+		return err
+	}
 	left, err := Prepare(query.data, leftStatement, query.options)
 	if err != nil {
 		return err
@@ -303,6 +307,31 @@ func BuildUnion(query *Query, expr *sqlparser.Union) error {
 		return err
 	}
 	return nil
+}
+
+// unionBranch prepares one side of a UNION, which is either a SELECT or - in a
+// chain such as A UNION B UNION C - another UNION
+func unionBranch(statement sqlparser.TableStatement, with *sqlparser.With) (Statement, error) {
+	switch statement := statement.(type) {
+	case *sqlparser.Select:
+		{
+			if with != nil {
+				statement.With = with
+			}
+			return statement, nil
+		}
+	case *sqlparser.Union:
+		{
+			if with != nil {
+				statement.With = with
+			}
+			return statement, nil
+		}
+	default:
+		{
+			return nil, UNSUPPORTED_CASE.Extend(fmt.Sprintf("%T is not supported in a union", statement))
+		}
+	}
 }
 
 func BuildCte(query *Query, expr *sqlparser.With) error {
